@@ -352,7 +352,7 @@ func (proxy *PgProxy) handleClientPacket(ctx context.Context, packet *PacketHand
 	if err != nil {
 		return false, err
 	}
-	switch proxy.protocolState.LastPacketType() {
+	switch proxy.protocolState.LastClientPacketType() {
 	case ExecutePacketType:
 		executePacket, err := packet.GetExecuteData()
 		if err != nil {
@@ -463,7 +463,7 @@ func (proxy *PgProxy) handleQueryPacket(ctx context.Context, packet *PacketHandl
 		} else {
 			// create new logger to log full sql only once and repeat it in the next log messages
 			log := logger.WithField("sql", queryWithHiddenValues)
-			if proxy.protocolState.LastPacketType() == ParseStatementPacket {
+			if proxy.protocolState.LastClientPacketType() == ParseStatementPacket {
 				preparedStatement, err := packet.GetParseData()
 				if err != nil {
 					return false, err
@@ -866,7 +866,7 @@ func (proxy *PgProxy) handleDatabasePacket(ctx context.Context, packet *PacketHa
 	if err != nil {
 		return err
 	}
-	switch proxy.protocolState.LastPacketType() {
+	switch proxy.protocolState.LastDatabasePacketType() {
 	case DataPacket:
 		// If that's some sort of a packet with a query response inside it,
 		// decrypt and process the data in it.
